@@ -196,6 +196,8 @@ func (s *Session) processBuffer(buffer *bytes.Buffer, cc *Conn) error {
 		buffer = seekBufferToNextMessage(buffer, read)
 		req.SetSequence(s.Sequence())
 
+		// a message was received from the peer, whatever the request monitor makes of it
+		s.inactivityMonitor.Notify()
 		drop, err := s.requestMonitor(cc, req)
 		if err != nil {
 			s.messagePool.ReleaseMessage(req)
@@ -205,7 +207,6 @@ func (s *Session) processBuffer(buffer *bytes.Buffer, cc *Conn) error {
 			s.messagePool.ReleaseMessage(req)
 			continue
 		}
-		s.inactivityMonitor.Notify()
 		cc.pushToReceivedMessageQueue(req)
 	}
 	return nil
